@@ -204,7 +204,9 @@ func codecExt4(c *hx.Ctx, r *hx.Rng) {
 			b = ext4.VerifInodeEncode(a, 256)
 			back, gomode, err = ext4.VerifInodeDecode(b, 256)
 		})
-		t := func(k string, x time.Time) []string { return []string{fmt.Sprintf("%s=%d", k, x.Unix()), fmt.Sprintf("%sn=%d", k, x.Nanosecond())} }
+		t := func(k string, x time.Time) []string {
+			return []string{fmt.Sprintf("%s=%d", k, x.Unix()), fmt.Sprintf("%sn=%d", k, x.Nanosecond())}
+		}
 		args := []string{fmt.Sprintf("ft=%d", a.FileType>>12), fmt.Sprintf("perm=%d", a.Perm), fmt.Sprintf("uid=%d", a.UID), fmt.Sprintf("gid=%d", a.GID),
 			fmt.Sprintf("size=%d", a.Size), fmt.Sprintf("links=%d", a.Links), fmt.Sprintf("flags=%d", a.Flags)}
 		args = append(args, t("at", a.Atime)...)
@@ -262,7 +264,7 @@ func codecExt4(c *hx.Ctx, r *hx.Rng) {
 				v = r.U64() & (1<<(8*uint(w.width)) - 1)
 			}
 			if w.name == "flags" {
-				v &= 0x3D6FFFFF         // the flag bits the library knows (others are dropped by design of inodeFlags)
+				v &= 0x3D6FFFFF            // the flag bits the library knows (others are dropped by design of inodeFlags)
 				v &^= 0x80000 | 0x10000000 // no extent tree / inline data to parse
 			}
 			if w.name == "mode" {
